@@ -89,6 +89,39 @@ func init() {
 		r := x.CheckedRemove(u32(a[1]))
 		return bstr(r) + " " + d32(x)
 	})
+	// addmanyfrom x v n : AddMany([m, m+2, m+4, …]) (n+1 values, clipped below 2^32) where m is the smallest member >= v:
+	// a batch whose FIRST value is already present and whose later values of the same chunk are mostly new
+	reg("addmanyfrom", func(e *env, a []string) string {
+		need(a, 3)
+		x := e.b(a[0])
+		v, n := u32(a[1]), int(u64(a[2]))
+		if n > 100000 {
+			panic(skipErr{"too many"})
+		}
+		var m uint64
+		found := false
+		for _, iv := range ivs32(x) { // raw representation walk, not NextValue
+			if iv.hi >= uint64(v) {
+				m = iv.lo
+				if m < uint64(v) {
+					m = uint64(v)
+				}
+				found = true
+				break
+			}
+		}
+		if !found {
+			return "none"
+		}
+		vals := make([]uint32, 0, n+1)
+		for i := 0; i <= n; i++ {
+			if w := m + 2*uint64(i); w < 1<<32 {
+				vals = append(vals, uint32(w))
+			}
+		}
+		x.AddMany(vals)
+		return d32(x)
+	})
 	reg("addmany", func(e *env, a []string) string {
 		need(a, 1)
 		x := e.b(a[0])
